@@ -319,7 +319,13 @@ func history(c *hl.Ctx, depth int) {
 	rec(nil)
 }
 
+// run: the config-history family comes last so that, when a budget runs out, it is the one cut short.
 func run(c *hl.Ctx) {
+	runBase(c)
+	ascHistory(c)
+}
+
+func runBase(c *hl.Ctx) {
 	retention(c)
 	if c.Thorough() {
 		history(c, 5)
@@ -328,10 +334,11 @@ func run(c *hl.Ctx) {
 	}
 	objHistory(c)
 	encHistory(c)
-	c.Rule("E3 bounded-exhaustive: all 65536 two-byte ASC values; accepted configs (420) x raw lengths; 2-3 frame concatenations; reference-writer frames over id x protection x profile x sfi x channels x header bits x fullness x lengths. Non-trivial = distinct case that decoded successfully to a non-empty raw block (or accepted ASC). Object-history family: one ADTS object goes through every history of depth 0..2 (thorough: 0..3, depth 3 over a thinner alphabet) over {SetASC, write through ASC() - each for the 5 object types x (sfi,channels) in (4,2),(1,1),(12,7); Encode; Decode of a library-encoded frame of each object type or of an ISO-writer frame of each profile x id x protection; 4 failing Decodes; 5 rejected SetASCs}, then decodes one frame out of {library encoder x 420 accepted configs, ISO writer x id x protection x profile x sfi x channels (1008)} (quick, depth 2: only the 85 frames with (sfi,channels) at the corners of the ranges or (4,2)); the raw block, the profile/sfi/channels reported by ASC() afterwards and the header of a following Encode must be those of the frame just decoded. Non-trivial there = all of these held for a distinct (history, frame). Encode-history family: ONE ADTS object with an unchanged configuration encodes every sequence of 1, 2 and 3 (thorough: 4) raw blocks with lengths from {1,2,24,25,249,250,300,2040,2041,2042,4088,4089,6136,6137,8183,8184} (frame lengths at the boundaries of the 13-bit aac_frame_length bits held by header bytes 3, 4, 5), for 7 configurations - one per channel configuration 1..7, all 5 object types (thorough, length <= 3: 5 object types x sfi {1,4,12} x channels 1..7 = 105) - in 3 modes (plain; the encoding object decodes each frame it just produced; SetASC of the same bytes before every further Encode); every output is read by the ISO parser (advertised length = 7 + raw length = bytes returned, layer, blocks, profile/sfi/channels, raw block, nothing left), decoded by a fresh object (and by the encoding object in the second mode) to the same raw block and configuration, earlier outputs must be unchanged at the end and the concatenation of all outputs decodes frame by frame with each remainder at the next sync word. Non-trivial there = all of these held for a distinct (length, configuration, mode, length tuple).")
+	c.Rule("E3 bounded-exhaustive: all 65536 two-byte ASC values; accepted configs (420) x raw lengths; 2-3 frame concatenations; reference-writer frames over id x protection x profile x sfi x channels x header bits x fullness x lengths. Non-trivial = distinct case that decoded successfully to a non-empty raw block (or accepted ASC). Object-history family: one ADTS object goes through every history of depth 0..2 (thorough: 0..3, depth 3 over a thinner alphabet) over {SetASC, write through ASC() - each for the 5 object types x (sfi,channels) in (4,2),(1,1),(12,7); Encode; Decode of a library-encoded frame of each object type or of an ISO-writer frame of each profile x id x protection; 4 failing Decodes; 5 rejected SetASCs}, then decodes one frame out of {library encoder x 420 accepted configs, ISO writer x id x protection x profile x sfi x channels (1008)} (quick, depth 2: only the 85 frames with (sfi,channels) at the corners of the ranges or (4,2)); the raw block, the profile/sfi/channels reported by ASC() afterwards and the header of a following Encode must be those of the frame just decoded. Non-trivial there = all of these held for a distinct (history, frame). Encode-history family: ONE ADTS object with an unchanged configuration encodes every sequence of 1, 2 and 3 (thorough: 4) raw blocks with lengths from {1,2,24,25,249,250,300,2040,2041,2042,4088,4089,6136,6137,8183,8184} (frame lengths at the boundaries of the 13-bit aac_frame_length bits held by header bytes 3, 4, 5), for 7 configurations - one per channel configuration 1..7, all 5 object types (thorough, length <= 3: 5 object types x sfi {1,4,12} x channels 1..7 = 105) - in 3 modes (plain; the encoding object decodes each frame it just produced; SetASC of the same bytes before every further Encode); every output is read by the ISO parser (advertised length = 7 + raw length = bytes returned, layer, blocks, profile/sfi/channels, raw block, nothing left), decoded by a fresh object (and by the encoding object in the second mode) to the same raw block and configuration, earlier outputs must be unchanged at the end and the concatenation of all outputs decodes frame by frame with each remainder at the next sync word. Non-trivial there = all of these held for a distinct (length, configuration, mode, length tuple). Config-history family (aschist): the receiver of a two-byte config - one AudioSpecificConfig value through UnmarshalBinary (path asc), one ADTS object through SetASC (path adts) - is first put into a prior state out of {fresh; holds a valid configuration V that arrived through the same call, through a field write (ADTS: through ASC()), or (ADTS) through a successful Decode of a library-encoded frame or of an ISO-writer frame with id=protection_absent in {0,1} (thorough: all four id x protection_absent) - V over the 5 object types x sfi {1,4,12} x channels {1,2,7} (Decodes in quick: x (sfi,channels) in (4,2),(1,1),(12,7); thorough: all 420 accepted configurations, field writes 105); after one of 12 rejected inputs, one per rejection reason (all zero; object 0; object 4; every field at its maximum; sfi 0, 13, 15; channels 0, 8, 15; 1 byte; 0 bytes); (ADTS) after one of 4 failing Decodes; and the two-step states valid-then-rejected, valid-then-failing-Decode, valid-then-Encode, valid-then-another-valid (another configuration or another way in), rejected-then-valid, failing-Decode-then-valid with the valid step over 3 configurations x {call, Decode} (thorough: 15 configurations x {call, field write, Decode}; valid-then-another-valid in thorough: 3 configurations x {call, field write, Decode})}, then EVERY one of the 65536 two-byte configs C is applied to that same object (quick: all 65536 for the core states - fresh, every object type x 3 (sfi,channels) pairs through the call, 3 field writes, 5+6 Decodes, all rejected inputs, all failing Decodes: 31 asc + 46 adts states - and the 8192 configs whose 3 low bits are 0 for the other 150 asc + 322 adts states; thorough: all 65536 for every state): the verdict must be the accepted set of the statement, and when accepted the fields must be the ISO bit fields of C, the re-marshalled bytes the ISO packing, and (ADTS) the header of a following Encode must carry C's profile/sfi/channels; then, on the same object and whatever the verdict on C, one valid configuration W - each field the first of 5 candidates that neither the prior state nor C has put into the object - must be accepted with exactly its own fields/bytes/header, and (ADTS) after it one ISO-writer frame whose fields all differ from W's must decode to its raw block, report its profile/sfi/channels and give a matching following Encode. One evaluation = one (path, prior state, C) with its follow-ups. Non-trivial there = every clause held for a distinct (path, prior state, C) with C an accepted configuration; the configs that must be rejected (62176 of 65536 per prior state) are evaluated but, being rejections, not counted as non-trivial.")
 	c.Assume("reference ADTS writer/parser written from ISO/IEC 13818-7 6.2 is correct", "payload bytes are a fixed position-dependent pattern with embedded 0xFFF1 lookalikes",
 		"encode-history family: raw blocks are a fixed position-dependent pattern that differs per position in the sequence and per length; the configuration is never changed during a history (changes of configuration between Encodes are the history/ and objhist/ families)",
-		"object-history family: history steps outside the statement (failing Decode, rejected SetASC, Encode without a configuration) only put the object into a state, their own results are not judged; the reported ADTS profile is Object.ToProfile() as in the other families")
+		"object-history family: history steps outside the statement (failing Decode, rejected SetASC, Encode without a configuration) only put the object into a state, their own results are not judged; the reported ADTS profile is Object.ToProfile() as in the other families",
+		"config-history family: what an object holds or does after a REJECTED config is not judged (the statement only says the config is rejected) until a valid config or a conformant frame is applied to it; steps of a prior state that lie outside the statement (rejected inputs, failing Decodes, Encode without configuration) are not judged themselves; the oracle for every config is the ISO bit layout plus the accepted set of the statement, never the library's own answer on a fresh object (that answer is only quoted in the report)")
 	checkASC(c)
 
 	cfgs := accepted()
@@ -490,6 +497,10 @@ func replay(c *hl.Ctx, raw json.RawMessage) {
 	}
 	if part.Part == "enchist" {
 		replayEncHist(c, raw)
+		return
+	}
+	if part.Part == "aschist" {
+		replayASCHist(c, raw)
 		return
 	}
 	var cs encCase
